@@ -1294,7 +1294,25 @@ func (e *Env) evalCall(n *ECall) SVal {
 		// captured(f, "name", i, T): i-th captured variable of closure f
 		v := e.eval(n.Args[0])
 		nm := n.Args[1].(*EStr).Val
-		idx := n.Args[2].(*EInt).Val
+		var idx string
+		if ei, ok := n.Args[2].(*EInt); ok {
+			idx = ei.Val
+		} else {
+			// by variable name (robust against reordering of the first uses inside the closure)
+			vn := typeArg(n.Args[2])
+			tf := vc.w.findFunc(e.pkgScope().Path(), nm)
+			if tf == nil {
+				e.fail("captured: no function %s", nm)
+			}
+			for i, fv := range tf.FreeVars {
+				if fv.Name() == vn {
+					idx = fmt.Sprint(i)
+				}
+			}
+			if idx == "" {
+				e.fail("captured: %s does not capture a variable named %s", nm, vn)
+			}
+		}
 		T := e.parseType(typeArg(n.Args[3]))
 		key := e.pkgScope().Path() + "." + nm
 		fvn := fmt.Sprintf("fv.%s.%s", sanitize(key), idx)
@@ -1443,6 +1461,17 @@ func (vc *VC) pureApp(key string, sig *types.Signature, recv SVal, args []SVal) 
 			ss = append(ss, vc.d.sortOf(sig.Params().At(i).Type()))
 		}
 		vc.d.declFun(name, fmt.Sprintf("(declare-fun %s (%s) %s)", name, strings.Join(ss, " "), vc.d.sortOf(sig.Results().At(0).Type())))
+		// the value of a pure (state-independent) function is well-typed and cannot be storage allocated by
+		// this activation -- for every argument tuple, not only for the applications met in the code
+		var bs, as []string
+		for i, srt := range ss {
+			bs = append(bs, fmt.Sprintf("(a!%d %s)", i, srt))
+			as = append(as, fmt.Sprintf("a!%d", i))
+		}
+		app := "(" + name + " " + strings.Join(as, " ") + ")"
+		if f := vc.d.rangeAssume(app, sig.Results().At(0).Type(), "alloc!0", 0); f != "" {
+			vc.d.axioms = append(vc.d.axioms, fmt.Sprintf("(assert (forall (%s) (! %s :pattern (%s))))", strings.Join(bs, " "), f, app))
+		}
 	}
 	ts := []string{recv.t}
 	for _, a := range args {
@@ -1618,7 +1647,7 @@ func (e *Env) applySpecFunc(sf *SpecFunc, args []Expr) SVal {
 		app = name
 	}
 	res := SVal{t: app, typ: retTyp, sort: retSort}
-	if sf.Body != nil && ((sf.Recursive && !e.noUnfold && e.unfoldDepth < 2) || (sf.Opaque && e.forceUnfold)) {
+	if sf.Body != nil && ((sf.Recursive && !sf.Opaque && !e.noUnfold && e.unfoldDepth < 2) || (sf.Opaque && e.forceUnfold)) {
 		// unfolding instance of the definition (recursive calls inside are unfolded once more)
 		saved, savedVars, savedF := e.noFnNames, e.vars, e.forceUnfold
 		e.noFnNames = true
